@@ -1181,7 +1181,15 @@ class Node(
             for other in old.connections:
                 other.connections = [new if c is old else c for c in other.connections]
             old.connections = []
-            if getattr(old, "_value_receiver", None) is not None:
+            if (
+                getattr(old, "_value_receiver", None) is not None
+                and getattr(new, "_value_receiver", None) is None
+            ):
+                # A link leading _out_ of us (our output forwarding to the parent's
+                # output) is not part of the stored state and is carried over; a link
+                # the loaded state already re-forged (a macro's input forwarding to its
+                # _restored_ children) must not be overwritten by the old one, which
+                # leads to the children we just discarded
                 new._value_receiver = old._value_receiver
             for sender in linked_to_us:
                 if sender._value_receiver is old:
